@@ -737,6 +737,7 @@ def flatten(self, *dims, **kwargs):
     # dimension to insert the new axis at
     if insert is None: 
         insert = ii  # by default, do not reshape
+    insert = min(insert, self.ndim - n) # a position among the remaining dimensions
 
     # If dimensions do not follow each other, transpose first
     if dims != self.dims[insert:insert+len(dims)]:
